@@ -170,6 +170,13 @@ pub fn receive_cw20(
                 return Err(ContractError::Unauthorized {});
             }
 
+            // the asset named in the hook must be the cw20 token that delivered it
+            if !offer_asset.info.equal(&AssetInfo::Token {
+                contract_addr: info.sender.to_string(),
+            }) {
+                return Err(ContractError::AssetMismatch {});
+            }
+
             let to_addr = if let Some(to_addr) = to {
                 Some(deps.api.addr_validate(to_addr.as_str())?)
             } else {
